@@ -40,11 +40,15 @@ struct Party {
 }
 
 fn party(name: &'static str, kp: &Keypair, initiator: bool, prologue: &[u8]) -> Party {
+    let cfg = Config::new(kp).expect("noise config").with_prologue(prologue.to_vec());
+    party_cfg(name, cfg, initiator)
+}
+
+fn party_cfg(name: &'static str, cfg: Config, initiator: bool) -> Party {
     let (e0, e1, ctl) = pipe(true);
     for d in 0..2 {
         ctl.with(d, |x| x.keep_log = true);
     }
-    let cfg = Config::new(kp).expect("noise config").with_prologue(prologue.to_vec());
     // the party always holds end 0 of its own pipe: writes dir 0, reads dir 1
     let fut: Hs = if initiator { cfg.upgrade_outbound(e0, "/noise") } else { cfg.upgrade_inbound(e0, "/noise") };
     Party { name, side: Side::Run(fut), ctl, wdir: 0, _keep: e1 }
@@ -156,7 +160,7 @@ pub fn run(out: &mut Out, sched: &Value) {
     let off = sched.get("off").and_then(|x| x.as_u64()).unwrap_or(0) as usize;
     let mask = sched.get("mask").and_then(|x| x.as_u64()).unwrap_or(1) as u8;
     let off2 = sched.get("off2").and_then(|x| x.as_i64()).unwrap_or(-1);
-    let mitm = attack == "mitm";
+    let mitm = attack == "mitm" || attack == "splice";
     let cp = if mitm { "M" } else { "peer" };
     out.reset_with(json!({"attack": attack, "cp": cp, "prologue": if attack == "prologue" { "diff" } else { "same" }}), sched);
     let (ka, kb, km) = (keypair(&kt), keypair(&kt), keypair(&kt));
@@ -165,6 +169,47 @@ pub fn run(out: &mut Out, sched: &Value) {
     let recorded = if attack == "replay" { Some(record(&ka, &kb)) } else { None };
     let mut a = party("A", &ka, true, if attack == "prologue" { b"one" } else { b"" });
     let mut b = party("B", &kb, false, if attack == "prologue" { b"two" } else { b"" });
+    if attack == "splice" {
+        // M runs the real handshake with its own static key but presents a spliced identity payload
+        let variant = vcommon::s(sched, "variant");
+        let victim_is_a = vcommon::s(sched, "role") == "resp";
+        let kx = if vcommon::s(sched, "x") == "peer" { if victim_is_a { kb.clone() } else { ka.clone() } } else { keypair(&kt) };
+        let (xpub, xsig) = libp2p_noise::verif::identity_payload(&Config::new(&kx).expect("cfg"));
+        let mcfg = Config::new(&km).expect("cfg");
+        let (mpub, msig) = libp2p_noise::verif::identity_payload(&mcfg);
+        let (p, sg) = match variant.as_str() {
+            "xid_xsig" => (xpub, xsig),
+            "xid_msig" => (xpub, msig),
+            "xid_nosig" => (xpub, vec![]),
+            "mid_xsig" => (mpub, xsig),
+            "mid_nosig" => (mpub, vec![]),
+            _ => (mpub, msig), // "honest"
+        };
+        let mcfg = libp2p_noise::verif::with_identity_payload(mcfg, p, sg);
+        let mut m = party_cfg("Mx", mcfg, !victim_is_a);
+        let v = if victim_is_a { &mut a } else { &mut b };
+        for _ in 0..20 {
+            let mut p = v.poll(&det, out, &names);
+            let w = v.take_written();
+            p |= !w.is_empty();
+            m.feed(&w);
+            p |= m.poll(&det, out, &names);
+            let w = m.take_written();
+            p |= !w.is_empty();
+            v.feed(&w);
+            if !p {
+                break;
+            }
+        }
+        v.eof();
+        m.eof();
+        for _ in 0..3 {
+            v.poll(&det, out, &names);
+            m.poll(&det, out, &names);
+        }
+        out.ev(json!({"e": "end"}));
+        return;
+    }
     if mitm {
         // M answers A as a responder and dials B as an initiator, both with the real code and M's identity
         let mut mb = party("Mb", &km, false, b""); // faces A
@@ -305,6 +350,15 @@ fn generate(out: &mut Out, deep: bool, seed: u64) {
         for m in 1..=3 {
             for at in ["drop", "dup", "replay"] {
                 run(out, &json!({"key": kt, "attack": at, "msg": m}));
+            }
+        }
+    }
+    for kt in ["ed25519", "secp256k1", "ecdsa"] {
+        for role in ["resp", "init"] {
+            for x in ["peer", "third"] {
+                for variant in ["xid_xsig", "xid_msig", "xid_nosig", "mid_xsig", "mid_nosig", "honest"] {
+                    run(out, &json!({"key": kt, "attack": "splice", "role": role, "x": x, "variant": variant}));
+                }
             }
         }
     }
